@@ -605,7 +605,15 @@ struct app {
             bool ok = false;
             std::string e = jstrk(s, "ec", "ok");
             for (auto& st : w.streams) if (st->wr) {
-                if (e == "ok") { w.deliver_write(*st, SIZE_MAX); w.finish_write(*st, {}); }
+                if (e == "ok" && jint(s, "drop", 0)) {
+                    // the write is reported successful (the bytes sit in a send buffer) but what was not delivered yet never
+                    // reaches the broker: the connection is lost right afterwards
+                    int cid = st->conn_id;
+                    w.finish_write(*st, {});
+                    jev("fault").i("c", cid).str("ec", "reset").str("on", "after_write");
+                    w.fault(cid, sim::ec_from("reset"), true, true);
+                }
+                else if (e == "ok") { w.deliver_write(*st, SIZE_MAX); w.finish_write(*st, {}); }
                 else { auto* cn = w.find_conn(st->conn_id); if (cn) { cn->dead = true; cn->dead_ec = sim::ec_from(e); w.conn_end(*cn, "fault"); } w.finish_write(*st, sim::ec_from(e)); }
                 ok = true; break;
             }
